@@ -281,6 +281,7 @@ func RunC05(d *Driver) *Report {
 		return termFlags(prog), strings.TrimPrefix(ans, "TERMS "), true
 	}
 	nterm := 0
+	nfn := 0
 	checkTerms := func(stream, src string) {
 		real, model, ok := askTerms(src)
 		if !ok {
@@ -290,6 +291,29 @@ func RunC05(d *Driver) *Report {
 		r.Count("terms:"+src, true)
 		if real != model {
 			r.Disagree(Case{Stream: stream, Input: src, Real: real, Model: model, Note: "alwaysTerminates of every statement, parser against Model/Static.lean"})
+		}
+		// the hypotheses of C05.typed_function_returns_a_value hold of every typed function the parser accepts
+		prog, _, _ := ParseSrc(src)
+		ser, _ := SerProgram(prog)
+		ans, err := d.Ask("eval|terms=2|" + ser + "|||")
+		if err != nil {
+			panic(err)
+		}
+		bits := strings.TrimPrefix(ans, "FNOK ")
+		i := 0
+		for _, n := range prog.Statements {
+			fd, ok := n.(*parser.FuncDefStmt)
+			if !ok {
+				continue
+			}
+			if 2*i+1 < len(bits) && fd.ReturnType != nil && fd.ReturnType != parser.NONE_TYPE {
+				nfn++
+				if bits[2*i] != '1' || bits[2*i+1] != '1' {
+					r.Violation(Case{Stream: stream + "/typed-function-hypotheses", Input: src, Real: "accepted", Model: "terminates,breaks-in-loops-and-returns-have-values=" + bits[2*i:2*i+2] + " for func " + fd.Name,
+						Spec: "an accepted function with a return type always terminates, breaks only inside loops and returns only values"})
+				}
+			}
+			i++
 		}
 	}
 	bodies := c05Bodies()
@@ -403,7 +427,7 @@ func RunC05(d *Driver) *Report {
 	if berr != nil {
 		r.Disagree(Case{Stream: "build", Input: "go build", Real: berr.Error()})
 	}
-	r.Rule = fmt.Sprintf("termination analysis: alwaysTerminates of every statement of %d accepted programs (%d constructed function bodies with every combination of returning / non-returning if, else-if, else branches, loops, nesting, comments and blank lines; generated programs; documentation examples) compared with Model/Static.lean, and for each constructed body exactly one of {body alone, body + return} must be accepted, as the analysis says. Rule-breaking edits: %d programs = 2 rich valid programs x every line position x 17 edits of 11 kinds (unused / undeclared variable, redeclaration, type mismatch, argument count, unknown function, stray text after a statement and after end, break outside a loop, value returned from handler / procedure / top level) + 120 constructed programs for block scoping (use after the block, in a sibling branch of every if chain position, in another function or handler, before the declaration), event handler parameter lists (every wrong type and count for every event), redeclared functions / handlers / parameters, argument and return types + unreachable code after every return / break (directly and after comment + blank line) + missing return; each must be rejected with a located error, produce no platform call and no output through the library entry point, and (%d of them) exit non-zero with empty stdout and errors on stderr through the rebuilt `evy run`. Non-trivial = distinct program", nterm, len(bodies), nedit, nbin)
+	r.Rule = fmt.Sprintf("termination analysis: alwaysTerminates of every statement of %d accepted programs (%d constructed function bodies with every combination of returning / non-returning if, else-if, else branches, loops, nesting, comments and blank lines; generated programs; documentation examples) compared with Model/Static.lean; the hypotheses of typed_function_returns_a_value (terminates, breaks only in loops, returns carry values) evaluated by the model on each of the %d accepted typed functions; and for each constructed body exactly one of {body alone, body + return} must be accepted, as the analysis says. Rule-breaking edits: %d programs = 2 rich valid programs x every line position x 17 edits of 11 kinds (unused / undeclared variable, redeclaration, type mismatch, argument count, unknown function, stray text after a statement and after end, break outside a loop, value returned from handler / procedure / top level) + 120 constructed programs for block scoping (use after the block, in a sibling branch of every if chain position, in another function or handler, before the declaration), event handler parameter lists (every wrong type and count for every event), redeclared functions / handlers / parameters, argument and return types + unreachable code after every return / break (directly and after comment + blank line) + missing return; each must be rejected with a located error, produce no platform call and no output through the library entry point, and (%d of them) exit non-zero with empty stdout and errors on stderr through the rebuilt `evy run`. Non-trivial = distinct program", nterm, nfn, len(bodies), nedit, nbin)
 	r.DriverCalls = d.N
 	return r
 }
